@@ -1,6 +1,6 @@
 import AnsiProofs.Props.C05c
 import AnsiModel.Replay
-import AnsiModel.Generated.Methods
+import AnsiModel.Generated.Methods.IterStep
 /-
   Property C09, part c — one step of `_AnsiSettingsIterator`, from the source.
 
